@@ -24,6 +24,8 @@ func init() {
 			"R4 table agreement: the section-type switches of the metadata validator and of the parser accept the same set of constants and both reject every other type. " +
 			"R5 sweep cursor: in the RAM-minus-sections sweep (the two-list function of package ovmf), every advance of the section cursor that is shared by all RAM banks is dominated, within the iteration, by the edge `section empty` or `value computed from the section <= a field of the current bank` — the invariant the function states in its own comment; this decides that one clause of the interval subtraction, not the subtraction. " +
 			"R6 (= C06.R8, TDX constructs) the launch options of each measurement inside the shape loop are set in that iteration: a legacy/early-accept setting does not leak into another configuration's MRTD. " +
+			"R8 (= C08.T14) the loop that builds the material regions appends exactly one region per declared section on every path, so the index saved for the TD HOB section addresses the TD HOB region. " +
+			"R7 no write in the closure of tdx.MRTD / tdx.UnsignedTDX goes to a package-level variable. " +
 			"Not covered: the SHA-384 stream contents, the interval subtraction that derives unaccepted memory, RAM-bank table values (numeric clauses).",
 		Assumptions: []string{"go/types, go/ssa, VTA call graph"},
 		Run:         runC05,
@@ -31,6 +33,12 @@ func init() {
 }
 
 func runC05(c *Ctx) {
+	// R8 = C08.T14: the region list built from the declared sections stays in step with the section list (the TD
+	// hand-off block is generated for the region at the index saved for the TD HOB section).
+	c.borrow("R8/C08.", runC08, func(rule, _ string) bool { return rule == "T14" })
+	// R7: the MRTD computation keeps no package-level state
+	c.noGlobalWrites("R7", c.P.Func("tdx", "MRTD"))
+	c.noGlobalWrites("R7", c.P.Func("tdx", "UnsignedTDX"))
 	// R6 = C06.R8 on the TDX side: each golden MRTD is computed with the launch options of the configuration
 	// it is labelled with (no setting left over from another loop iteration).
 	c.borrow("R6/C06.", runC06, func(rule, construct string) bool {
